@@ -37,6 +37,7 @@ static RunCfg cfg_from_plan(const Plan &p) {
     c.fill        = (int)p.get("heap_fill", 0);
     c.heap_seed   = derive(p.seed, "heap");
     c.step_budget = (uint64_t)p.get("step_budget", 200000000LL);
+    c.soft_budget = p.get("soft_budget", 0) != 0;
     return c;
 }
 
